@@ -112,7 +112,7 @@ Definition fence_continue (line : bytes) (line_offset seg_padding : Z) (ch : N) 
     let '(p, padding) := indent_position_padding line line_offset seg_padding indent in
     if p <? 0 then
       let q := first_non_space_position line 0 in
-      inr (if q <? 0 then 0 else q, 0)
+      inr (if q <? 0 then 0 else q - seg_padding, 0)      (* after the fix: the line starts with the padding *)
     else inr (p, padding).
 
 (* ---------- the same parsers over the reader model ---------- *)
